@@ -9,9 +9,9 @@ CORE_MODELLED = [
 # (profile, histories, calls per history)
 PROPS = {
     "C01": {
-        "quick": [("gc", 250, 120), ("limits", 60, 80), ("cycle", 28, 40)],
-        "thorough": [("gc", 4000, 300), ("limits", 600, 200), ("cycle", 140, 400), ("rw", 1000, 200), ("alloc", 1000, 200)],
-        "rule": "seeded random histories over add/bind/put/data/kid/kids/next_id with drain epilogue, filtered by the proved-equivalent validity predicate okStepB; distinct = by hash of the operation lines; non-trivial = at least one call after which keys() shrank (a collection)",
+        "quick": [("gc", 250, 120), ("limits", 60, 80), ("cycle", 28, 40), ("merge", 80, 0), ("fork", 50, 80), ("slice", 40, 30), ("ser", 16, 60)],
+        "thorough": [("gc", 4000, 300), ("limits", 600, 200), ("cycle", 140, 400), ("rw", 1000, 200), ("alloc", 1000, 200), ("merge", 3000, 0), ("fork", 1000, 160), ("slice", 800, 50), ("ser", 200, 120)],
+        "rule": "seeded random histories over add/bind/put/data/kid/kids/next_id with drain epilogue, filtered by the proved-equivalent validity predicate okStepB, plus histories with merge, clone, slice and save/load in them (the `no other call removes a vertex` clause and the accounting of data that arrived through those calls); distinct = by hash of the operation lines; non-trivial = at least one call after which keys() shrank (a collection)",
         "nontrivial": "collections",
         "modelled": CORE_MODELLED,
     },
@@ -136,7 +136,7 @@ PROPS["C11"] = {
     "rule": "pairs of random rooted labelled trees (1..7 vertices each, 1..4 labels so that paths overlap, random data placement in both Hex representations, random injections of ids into the capacity, some data of the left tree already read), every choice of `left`; observe before and after, then every present vertex of the left graph is read (drain) and compared with the reference run of the same algorithm; non-trivial = a history whose merge created or matched at least one vertex (>= 5 judged calls)",
     "nontrivial": "any5",
     "modelled": ALGO_MODELLED,
-    "partial": ["Props.C11.second_pass_is_noop_partial (stated for the kids of the root; inner nodes by monotonicity, not yet assembled)"],
+    "partial": [],
 }
 PROPS["C12"] = {
     "quick": [("mergebroken", 400, 0), ("merge", 100, 0)],
